@@ -50,6 +50,9 @@ struct Bh {
     /// the inner call's future is slow to drop: one armed caller is polled from inside its Drop
     /// (on another thread a caller could be polled at that moment), see trv_core::nest
     slow_drop: bool,
+    /// the original handle is polled ready before each clone is taken from it (a clone of a
+    /// ready service must not inherit whatever the original's readiness stands for)
+    ready_then_clone: bool,
 }
 
 struct X {
@@ -73,8 +76,14 @@ fn queued(w: &World) -> Vec<usize> {
     (0..w.callers.len()).filter(|&c| w.callers[c].is_live() && w.callers[c].polls > 0 && !has_inner(w, c)).collect()
 }
 
-fn do_arrive(w: &mut World, svc: &mut Svc, c: usize, single_handle: bool, nest: &Option<std::sync::Arc<trv_core::nest::Nest>>) {
+fn do_arrive(w: &mut World, svc: &mut Svc, c: usize, single_handle: bool, nest: &Option<std::sync::Arc<trv_core::nest::Nest>>, ready_then_clone: bool) {
     let mut own;
+    if ready_then_clone {
+        match drive_ready::<_, Req>(svc, 4) {
+            Ok(Ok(())) => {}
+            other => panic!("bulkhead poll_ready (original handle) not ready: {:?}", other.map(|r| r.is_ok())),
+        }
+    }
     let s: &mut Svc = if single_handle {
         svc
     } else {
@@ -115,7 +124,7 @@ impl Scenario for Bh {
         self.prop
     }
     fn label(&self) -> String {
-        format!("bulkhead max={} max_wait={:?} callers={}{}{}", self.max, self.max_wait, self.callers, if self.late_ticks > 0 { " late-polls" } else { "" }, if self.shave_us > 0 { format!(" minus {}us", self.shave_us) } else if self.single_handle { " one-handle".to_string() } else if self.keep_done { " finished-futures-kept".to_string() } else if self.sync_panic_first { " first-inner-call-panics-in-call()".to_string() } else if self.preset_first { " builder_order=small()_preset_first".to_string() } else if self.listeners { " with-listeners".to_string() } else if self.starved_poll { " one-budget-starved-poll".to_string() } else if self.slow_drop { " inner-future-slow-to-drop".to_string() } else { String::new() })
+        format!("bulkhead max={} max_wait={:?} callers={}{}{}", self.max, self.max_wait, self.callers, if self.late_ticks > 0 { " late-polls" } else { "" }, if self.shave_us > 0 { format!(" minus {}us", self.shave_us) } else if self.single_handle { " one-handle".to_string() } else if self.keep_done { " finished-futures-kept".to_string() } else if self.sync_panic_first { " first-inner-call-panics-in-call()".to_string() } else if self.preset_first { " builder_order=small()_preset_first".to_string() } else if self.listeners { " with-listeners".to_string() } else if self.starved_poll { " one-budget-starved-poll".to_string() } else if self.slow_drop { " inner-future-slow-to-drop".to_string() } else if self.ready_then_clone { " clones-of-a-ready-handle".to_string() } else { String::new() })
     }
     fn callers(&self) -> usize {
         self.callers
@@ -168,7 +177,7 @@ impl Scenario for Bh {
     }
     fn arrive(&self, w: &mut World, x: &mut X, c: usize, _v: u8) {
         let nest = x.nest.clone();
-        do_arrive(w, &mut x.svc, c, self.single_handle, &nest);
+        do_arrive(w, &mut x.svc, c, self.single_handle, &nest, self.ready_then_clone);
     }
     fn outs(&self) -> Vec<Out> {
         vec![Out::Ok, Out::Err(0), Out::Panic]
@@ -353,7 +362,7 @@ impl Scenario for Bh {
             debug_assert_eq!(c, base + i);
             w.begin_step();
             let nest = x.nest.clone();
-        do_arrive(w, &mut x.svc, c, self.single_handle, &nest);
+        do_arrive(w, &mut x.svc, c, self.single_handle, &nest, self.ready_then_clone);
             if w.callers[c].is_live() {
                 w.poll_caller(c);
             }
@@ -394,18 +403,18 @@ fn configs(prop: &'static str, tier: Tier) -> Vec<Bh> {
     let mut v = vec![];
     // listeners registered for every event type
     for max_wait in [None, Some(0u64), Some(20)] {
-        v.push(Bh { prop, max: 1, max_wait, callers: 3, max_ticks: tier.pick(3, 4), max_drops: 1, max_panics: 1, late_ticks: 0, shave_us: 0, single_handle: false, grid: 10, keep_done: false, sync_panic_first: false, preset_first: false, listeners: true, starved_poll: false, slow_drop: false });
+        v.push(Bh { prop, max: 1, max_wait, callers: 3, max_ticks: tier.pick(3, 4), max_drops: 1, max_panics: 1, late_ticks: 0, shave_us: 0, single_handle: false, grid: 10, keep_done: false, sync_panic_first: false, preset_first: false, listeners: true, starved_poll: false, slow_drop: false, ready_then_clone: false });
     }
     // an inner call whose future is slow to drop (a caller polled from inside that drop)
     for max_wait in [None, Some(20u64)] {
-        v.push(Bh { prop, max: 1, max_wait, callers: 3, max_ticks: tier.pick(1, 2), max_drops: 1, max_panics: 0, late_ticks: 0, shave_us: 0, single_handle: false, grid: 10, keep_done: false, sync_panic_first: false, preset_first: false, listeners: false, starved_poll: false, slow_drop: true });
+        v.push(Bh { prop, max: 1, max_wait, callers: 3, max_ticks: tier.pick(1, 2), max_drops: 1, max_panics: 0, late_ticks: 0, shave_us: 0, single_handle: false, grid: 10, keep_done: false, sync_panic_first: false, preset_first: false, listeners: false, starved_poll: false, slow_drop: true, ready_then_clone: false });
     }
     // one budget-starved poll per history
     for max_wait in [Some(0u64), Some(20)] {
-        v.push(Bh { prop, max: 1, max_wait, callers: 3, max_ticks: tier.pick(3, 4), max_drops: 0, max_panics: 0, late_ticks: 0, shave_us: 0, single_handle: false, grid: 10, keep_done: false, sync_panic_first: false, preset_first: false, listeners: false, starved_poll: true, slow_drop: false });
+        v.push(Bh { prop, max: 1, max_wait, callers: 3, max_ticks: tier.pick(3, 4), max_drops: 0, max_panics: 0, late_ticks: 0, shave_us: 0, single_handle: false, grid: 10, keep_done: false, sync_panic_first: false, preset_first: false, listeners: false, starved_poll: true, slow_drop: false, ready_then_clone: false });
     }
     // a wait of Duration::MAX (the timer cannot represent the deadline)
-    v.push(Bh { prop, max: 1, max_wait: Some(WAIT_FOR_EVER), callers: 3, max_ticks: tier.pick(2, 3), max_drops: 1, max_panics: 0, late_ticks: 0, shave_us: 0, single_handle: false, grid: 10, keep_done: false, sync_panic_first: false, preset_first: false, listeners: false, starved_poll: false, slow_drop: false });
+    v.push(Bh { prop, max: 1, max_wait: Some(WAIT_FOR_EVER), callers: 3, max_ticks: tier.pick(2, 3), max_drops: 1, max_panics: 0, late_ticks: 0, shave_us: 0, single_handle: false, grid: 10, keep_done: false, sync_panic_first: false, preset_first: false, listeners: false, starved_poll: false, slow_drop: false, ready_then_clone: false });
     for max in [1usize, 2] {
         for max_wait in [None, Some(0), Some(20), Some(25)] {
             let callers = tier.pick(3, 4).max(max + 1);
@@ -427,39 +436,48 @@ fn configs(prop: &'static str, tier: Tier) -> Vec<Bh> {
                 listeners: false,
                 starved_poll: false,
                 slow_drop: false,
+                ready_then_clone: false,
             });
         }
     }
     // a wait in the seconds range (2.02 s, explored on a 1.01 s grid): whole seconds plus a
     // sub-second part
-    v.push(Bh { prop, max: 1, max_wait: Some(2020), callers: 3, max_ticks: tier.pick(3, 4), max_drops: 1, max_panics: 0, late_ticks: 0, shave_us: 0, single_handle: false, grid: 1010, keep_done: false, sync_panic_first: false, preset_first: false, listeners: false, starved_poll: false, slow_drop: false });
+    v.push(Bh { prop, max: 1, max_wait: Some(2020), callers: 3, max_ticks: tier.pick(3, 4), max_drops: 1, max_panics: 0, late_ticks: 0, shave_us: 0, single_handle: false, grid: 1010, keep_done: false, sync_panic_first: false, preset_first: false, listeners: false, starved_poll: false, slow_drop: false, ready_then_clone: false });
     // the builder calls in another order: reject_when_full() first, the wait (or a second
     // reject_when_full()) after it, the limit last - the later call wins
     for max_wait in [Some(0u64), Some(20)] {
-        v.push(Bh { prop, max: 1, max_wait, callers: 3, max_ticks: tier.pick(3, 4), max_drops: 1, max_panics: 0, late_ticks: 0, shave_us: 0, single_handle: false, grid: 10, keep_done: false, sync_panic_first: false, preset_first: true, listeners: false, starved_poll: false, slow_drop: false });
+        v.push(Bh { prop, max: 1, max_wait, callers: 3, max_ticks: tier.pick(3, 4), max_drops: 1, max_panics: 0, late_ticks: 0, shave_us: 0, single_handle: false, grid: 10, keep_done: false, sync_panic_first: false, preset_first: true, listeners: false, starved_poll: false, slow_drop: false, ready_then_clone: false });
     }
     // the first inner call panics inside call() itself
     for max_wait in [None, Some(20u64)] {
-        v.push(Bh { prop, max: 1, max_wait, callers: 3, max_ticks: tier.pick(2, 3), max_drops: 1, max_panics: 0, late_ticks: 0, shave_us: 0, single_handle: false, grid: 10, keep_done: false, sync_panic_first: true, preset_first: false, listeners: false, starved_poll: false, slow_drop: false });
+        v.push(Bh { prop, max: 1, max_wait, callers: 3, max_ticks: tier.pick(2, 3), max_drops: 1, max_panics: 0, late_ticks: 0, shave_us: 0, single_handle: false, grid: 10, keep_done: false, sync_panic_first: true, preset_first: false, listeners: false, starved_poll: false, slow_drop: false, ready_then_clone: false });
     }
     // finished futures stay alive until dropped explicitly
     for max_wait in [None, Some(20u64)] {
-        v.push(Bh { prop, max: 1, max_wait, callers: 3, max_ticks: tier.pick(2, 3), max_drops: tier.pick(2, 3), max_panics: 0, late_ticks: 0, shave_us: 0, single_handle: false, grid: 10, keep_done: true, sync_panic_first: false, preset_first: false, listeners: false, starved_poll: false, slow_drop: false });
+        v.push(Bh { prop, max: 1, max_wait, callers: 3, max_ticks: tier.pick(2, 3), max_drops: tier.pick(2, 3), max_panics: 0, late_ticks: 0, shave_us: 0, single_handle: false, grid: 10, keep_done: true, sync_panic_first: false, preset_first: false, listeners: false, starved_poll: false, slow_drop: false, ready_then_clone: false });
     }
     // all callers through the one original handle (no clone alive between calls)
     for max_wait in [None, Some(20u64)] {
-        v.push(Bh { prop, max: 1, max_wait, callers: 3, max_ticks: tier.pick(3, 4), max_drops: 1, max_panics: 0, late_ticks: 0, shave_us: 0, single_handle: true, grid: 10, keep_done: false, sync_panic_first: false, preset_first: false, listeners: false, starved_poll: false, slow_drop: false });
+        v.push(Bh { prop, max: 1, max_wait, callers: 3, max_ticks: tier.pick(3, 4), max_drops: 1, max_panics: 0, late_ticks: 0, shave_us: 0, single_handle: true, grid: 10, keep_done: false, sync_panic_first: false, preset_first: false, listeners: false, starved_poll: false, slow_drop: false, ready_then_clone: false });
     }
     // waits with a sub-millisecond part: 0.5 ms and 19.75 ms
     for (max_wait, shave_us) in [(1u64, 500u64), (20, 250)] {
-        v.push(Bh { prop, max: 1, max_wait: Some(max_wait), callers: 3, max_ticks: tier.pick(3, 4), max_drops: 1, max_panics: 0, late_ticks: 0, shave_us, single_handle: false, grid: 10, keep_done: false, sync_panic_first: false, preset_first: false, listeners: false, starved_poll: false, slow_drop: false });
+        v.push(Bh { prop, max: 1, max_wait: Some(max_wait), callers: 3, max_ticks: tier.pick(3, 4), max_drops: 1, max_panics: 0, late_ticks: 0, shave_us, single_handle: false, grid: 10, keep_done: false, sync_panic_first: false, preset_first: false, listeners: false, starved_poll: false, slow_drop: false, ready_then_clone: false });
+    }
+    // every caller's handle is a clone taken from the original right after the original was
+    // polled ready (only the occupancy bound is judged: a bulkhead that reserves in poll_ready
+    // may rightly keep a slot for the original)
+    if prop == "C01" {
+        for max_wait in [None, Some(0u64), Some(20u64)] {
+            v.push(Bh { prop, max: 1, max_wait, callers: 3, max_ticks: tier.pick(2, 3), max_drops: 1, max_panics: 0, late_ticks: 0, shave_us: 0, single_handle: false, grid: 10, keep_done: false, sync_panic_first: false, preset_first: false, listeners: false, starved_poll: false, slow_drop: false, ready_then_clone: true });
+        }
     }
     // a late executor: woken callers (permit handed over, wait deadline passed) are polled up to two ticks late
     for (max, max_wait) in [(1usize, Some(20u64)), (1, None), (2, Some(20))] {
         if tier == Tier::Quick && max == 2 {
             continue;
         }
-        v.push(Bh { prop, max, max_wait, callers: 3, max_ticks: tier.pick(4, 5), max_drops: tier.pick(1, 2), max_panics: tier.pick(0, 1), late_ticks: 2, shave_us: 0, single_handle: false, grid: 10, keep_done: false, sync_panic_first: false, preset_first: false, listeners: false, starved_poll: false, slow_drop: false });
+        v.push(Bh { prop, max, max_wait, callers: 3, max_ticks: tier.pick(4, 5), max_drops: tier.pick(1, 2), max_panics: tier.pick(0, 1), late_ticks: 2, shave_us: 0, single_handle: false, grid: 10, keep_done: false, sync_panic_first: false, preset_first: false, listeners: false, starved_poll: false, slow_drop: false, ready_then_clone: false });
     }
     v
 }
